@@ -1558,6 +1558,11 @@ impl Vm {
         self.push(exc_object);
         self.active_fiber_mut().frames.truncate(handler.frame_count);
         self.handling_exception = handler.has_catch_block();
+        if !self.handling_exception {
+            // A catch block takes the exception: the recorded throw site must not be reported for
+            // a later, unrelated error.
+            self.active_fiber_mut().error_ip = None;
+        }
         self.active_fiber_mut().current_frame_mut().unwrap().ip = handler.catch_ip;
         self.load_frame();
 
